@@ -195,6 +195,10 @@ func (sp SinePacer) Pace(elapsedTime time.Duration, elapsedHits uint64) (time.Du
 		// If the SinePacer configuration is invalid, stop the attack.
 		return 0, true
 	}
+	if elapsedHits == math.MaxUint64 {
+		// elapsedHits+1 would wrap around to zero, so stop the attack.
+		return 0, true
+	}
 	expectedHits := sp.hits(elapsedTime)
 	if elapsedHits < uint64(expectedHits) {
 		// Running behind, send next hit immediately.
